@@ -216,7 +216,7 @@ def mutate_text(rng, text):
     lines = [l for l in lines if l]
     if len(lines) < 3:
         return text + "TZID:x\r\n"
-    k = rng.randint(0, 9)
+    k = rng.randint(0, 11)
     protected = lambda l: l.upper().startswith(("RRULE", "DTSTART", "RDATE"))
     if k == 0:
         i = rng.randrange(len(lines)); del lines[i]
@@ -245,6 +245,23 @@ def mutate_text(rng, text):
             lines[i] = lines[i] + rng.choice([" ", "\t", "  "])
     elif k == 8:
         i = rng.randrange(1, len(lines)); lines[i] = " " + lines[i]       # becomes a continuation of the previous line
+    elif k in (10, 11):
+        # several VTIMEZONEs, each of the later ones with its own TZID, without a TZID (mandatory per zone), or with the
+        # TZID only after the components; per-zone state (TZID, component list) must not leak from one zone to the next
+        zone = list(lines)
+        for j in range(rng.randint(1, 2)):
+            variant = rng.randint(0, 3)
+            nz = [l.replace("TZID:Test", "TZID:Second" if j == 0 else "TZID:Third") for l in zone]
+            if variant == 1:
+                nz = [l for l in nz if not l.upper().startswith("TZID")]
+            elif variant == 2:
+                tz_l = [l for l in nz if l.upper().startswith("TZID")]
+                nz = [l for l in nz if not l.upper().startswith("TZID")]
+                nz = nz[:-1] + tz_l + nz[-1:]
+            elif variant == 3:
+                # a zone without components after a complete one
+                nz = [l for l in nz if l.upper().startswith(("BEGIN:VTIMEZONE", "END:VTIMEZONE", "TZID"))]
+            lines = lines + nz
     else:
         sep = rng.choice(["\n", "\r", "\r\n"])
         return sep.join(lines) + sep
@@ -545,6 +562,11 @@ def oracle(ctx):
         "unknown-property": "\r\n".join(good).replace("TZNAME:SSS", "X-WHAT:SSS"), "unclosed-component": drop("END:DAYLIGHT"),
         "no-components": "BEGIN:VTIMEZONE\r\nTZID:x\r\nEND:VTIMEZONE\r\n", "empty": "", "bad-offset": "\r\n".join(good).replace("TZOFFSETTO:", "TZOFFSETTO:x", 1),
         "mismatched-end": "\r\n".join(good).replace("END:STANDARD", "END:DAYLIGHT", 1),
+        # every VTIMEZONE needs its own TZID and its own components: nothing carries over from the zone before it
+        "second-zone-missing-TZID": "\r\n".join(good) + "\r\n" + drop("TZID"),
+        "third-zone-missing-TZID": "\r\n".join(good) + "\r\n" + "\r\n".join(good).replace("TZID:Test", "TZID:B") + "\r\n" + drop("TZID"),
+        "second-zone-no-components": "\r\n".join(good) + "\r\nBEGIN:VTIMEZONE\r\nTZID:B\r\nEND:VTIMEZONE\r\n",
+        "first-zone-missing-TZID": drop("TZID") + "\r\n" + "\r\n".join(good),
     }
     for cls, text in malformed.items():
         ctx.case(("malformed", cls)); ctx.count("malformed_" + cls)
